@@ -13,6 +13,7 @@ import itertools
 import json
 import operator
 import os
+import signal
 import subprocess
 import sys
 
@@ -433,6 +434,20 @@ def seq_case(start, ops):
 
 # ---------------------------------------------------------------- chunk worker
 
+def cpu_timed(fn, *args, seconds=20.0):
+    """Like common.timed, but the alarm counts CPU time of this process (a busy machine is not a
+    hang); a generous wall-clock alarm stays around it for calls that block without computing."""
+    def inner():
+        old = signal.signal(signal.SIGPROF, common._alarm)
+        signal.setitimer(signal.ITIMER_PROF, seconds)
+        try:
+            return fn(*args)
+        finally:
+            signal.setitimer(signal.ITIMER_PROF, 0)
+            signal.signal(signal.SIGPROF, old)
+    return common.timed(inner, seconds=60 * seconds)
+
+
 def work(chunk):
     """chunk = (kind, [args...]) ; runs the implementation + oracle + the extracted model."""
     common.use_repo()
@@ -442,7 +457,7 @@ def work(chunk):
     out_fails, stats = [], collections.Counter()
     for idx, args in enumerate(items):
         try:
-            fails, reqs, exp, st = common.timed(fn, *args, seconds=20)
+            fails, reqs, exp, st = cpu_timed(fn, *args, seconds=20)
         except common.Timeout:
             out_fails.append((idx, 'hang', 'the call does not terminate'))
             continue
@@ -548,13 +563,15 @@ def pick_filters(rng, n_triples):
 
 
 def run(chk):
-    chk.rule = ('graphs = every list of <=3 (quick) / <=4 (thorough) raw triples over sources {a,b} x roles '
-                '{:instance,:R,R} x targets {a,b,x,None} (duplicates included) x explicit top {None,a,b,z}, each with '
-                'random epidata (Push/POP/alignment lists, shuffled key order, sometimes a key that is not a triple) '
-                'and metadata; filters (s,r,t) over {None,a,b,z}x{None,:instance,:R,R,:X}x{None,a,b,x,z} (all 100 for '
-                'graphs of <=1 triple, 6 otherwise); top assignments {None,a,b,x,z}; pairs = all pairs of graphs '
-                'with <=1 triple (x tops) + a seeded random subsample of the full product; sequences of <=4 operations '
-                'from | |= - -=. A case is distinct per (kind, spec) and non-trivial when a graph has a triple')
+    chk.rule = ('graphs = EVERY list of <=3 raw triples over sources {a,b} x roles {:instance,:R,R} x targets '
+                '{a,b,x,None} (duplicates included) x explicit top {None,a,b,z}; thorough adds every list of 4 triples '
+                'over the 16 triples the constructor can produce x tops, plus 40k random raw lists of 4; each graph gets '
+                'random epidata (Push/POP/alignment lists, shuffled key order, sometimes a key that is not a triple) and '
+                'metadata; filters (s,r,t) over {None,a,b,z}x{None,:instance,:R,R,:X}x{None,a,b,x,z} (all 100 for graphs '
+                'of <=1 triple, 6 otherwise); top assignments {None,a,b,x,z}; pairs = all pairs of graphs with <=1 '
+                'triple (x tops) + a seeded random subsample (40k quick / 300k thorough) of the full product, 60% with '
+                'forced overlap; sequences of 1..4 operations from | |= - -= (15k / 100k); 300 / 1500 unions compared '
+                'under PYTHONHASHSEED 1 and 2. A case is distinct per (kind, spec); non-trivial when a graph has a triple')
     chk.require_theorems('Properties.C15', THEOREMS)
     common.use_repo()
     exe = common.build_driver('graph')
@@ -578,7 +595,7 @@ def run(chk):
         for ts in itertools.product(NORM, repeat=4):
             for top in TOPS:
                 add_single(ts, top)
-        for _ in range(60000):
+        for _ in range(40000):
             add_single(tuple(rng.choice(RAW) for _ in range(4)), rng.choice(TOPS))
     for s in singles[100:20000:4001]:
         chk.sample(case_of('single', s))
@@ -593,7 +610,7 @@ def run(chk):
             for topa in TOPS:
                 for topb in TOPS:
                     pairs.append((mk_spec(rng, ta, topa), mk_spec(rng, tb, topb)))
-    nrand = 40000 if quick else 500000
+    nrand = 40000 if quick else 300000
     for _ in range(nrand):
         ta, tb = rand_list(rng, maxlen), rand_list(rng, maxlen)
         if rng.random() < .6 and ta:                       # overlap on purpose
@@ -607,7 +624,7 @@ def run(chk):
 
     # ---- sequences
     seqs = []
-    nseq = 15000 if quick else 150000
+    nseq = 15000 if quick else 100000
     for _ in range(nseq):
         start = mk_spec(rng, rand_list(rng, maxlen), rng.choice(TOPS))
         ops = [(rng.randrange(4), mk_spec(rng, rand_list(rng, 3), rng.choice(TOPS))) for _ in range(rng.randint(1, 4))]
